@@ -144,7 +144,7 @@ def m2_accessor(run, project, L):
                        "the field is not masked, or not shifted down by the mask's trailing zeros (e.g. by the position of its highest "
                        "bit, or by an amount that depends on the field's content, so that fields lose or misplace their low bits)",
                        module=mod, node=f, func="Bit.__get__", construct="Bit.__get__ field value")
-            made.clear()
+            # (instances the accessor made when it was constructed - a named mask prepared once - stay valid)
             try:
                 # read on the class: obj is None, the owner class is handed in as objtype
                 got = Interp({"cls": cls}, module_tree=mod.tree, max_steps=200000).call(f, [selfobj, None, cls])
@@ -173,7 +173,15 @@ def m2_accessor(run, project, L):
     ok = False
     for r in rets:
         e = r.value
-        for _ in range(4):
+        for _ in range(6):
+            if isinstance(e, ast.Attribute) and norm(e.value) in ("type(self)", "cls", "self.__class__"):
+                # a table kept on the class: what the decorator stores there
+                sets_ = [x for x in ast.walk(R["dec"]) if isinstance(x, ast.Assign) and len(x.targets) == 1 and isinstance(x.targets[0], ast.Attribute)
+                         and norm(x.targets[0].value) == "cls" and x.targets[0].attr == e.attr]
+                if len(sets_) != 1:
+                    break
+                e = sets_[0].value
+                continue
             if isinstance(e, ast.Call) and call_name(e) in ("sorted", "list", "tuple") and e.args:
                 e = e.args[0]
             elif isinstance(e, ast.Name):
@@ -190,6 +198,25 @@ def m2_accessor(run, project, L):
                            "call consumes it, every later call of attributes() for that type yields no mask (no bit rows are printed from "
                            "the second attribute word on)", module=mod, node=defs[0], func="attributes", construct="attributes() single-use generator")
                 e = defs[0].value
+        if isinstance(e, (ast.GeneratorExp, ast.ListComp)) and len(e.generators) == 1 and isinstance(e.generators[0].target, ast.Name) \
+                and isinstance(e.generators[0].iter, ast.Name) and isinstance(R["loop"].iter, ast.Name) \
+                and e.generators[0].iter.id == R["loop"].iter.id and not e.generators[0].ifs and R["init"] is not None:
+            # one entry per installed accessor: `o.<attr>` where the accessor's __init__ binds <attr> to the named mask
+            # cls(value=mask, name=name) (the accessors are built for exactly the public non-routine members: G5)
+            o_ = e.generators[0].target.id
+            ini = R["init"]
+            me = ini.args.args[0].arg
+            ipar = [a_.arg for a_ in ini.args.args][1:]
+            given = dict(zip(ipar, R["init_args"]))
+            given.update(R["init_kwargs"])
+            byrole = {v_: k_ for k_, v_ in given.items()}
+            if isinstance(e.elt, ast.Attribute) and norm(e.elt.value) == o_ and {"name", "mask", "cls"} <= set(byrole):
+                want_ = (f"{byrole['cls']}(value={byrole['mask']}, name={byrole['name']})", f"{byrole['cls']}(name={byrole['name']}, value={byrole['mask']})",
+                         f"{byrole['cls']}({byrole['mask']}, {byrole['name']})", f"{byrole['cls']}({byrole['mask']}, name={byrole['name']})")
+                binds = [st_ for st_ in ini.body if isinstance(st_, ast.Assign) and len(st_.targets) == 1 and isinstance(st_.targets[0], ast.Attribute)
+                         and norm(st_.targets[0].value) == me and st_.targets[0].attr == e.elt.attr]
+                if len(binds) == 1 and norm(binds[0].value) in want_:
+                    ok = True
         if isinstance(e, (ast.GeneratorExp, ast.ListComp)) and len(e.generators) == 1:
             g = e.generators[0]
             src = members_source([a, R["dec"]], g.iter)
